@@ -11,7 +11,7 @@ import re
 from .absint import FnEval, INF
 from .mir import Body, operand_local, const_int
 from .report import Finding
-from .ctflow import norm_name
+from .ctflow import norm_name, fullmatch_name
 
 VERIF = os.path.dirname(os.path.dirname(os.path.abspath(__file__)))
 
@@ -263,7 +263,8 @@ class FnTotality:
                             s.status = "req"
                             s.req = (lsym[0], "minp", (po[0], int(po[1] + 1 - lsym[1])))
                             s.why = "requires len(%s) >= %s + %d" % (self.pname(lsym[0]), self.pname(po[0]), po[1] + 1 - lsym[1])
-                        elif idx is not None and idx[1] != INF and lsym is not None:
+                        elif idx is not None and idx[1] != INF and lsym is not None and idx[1] + 1 < min(1 << 40, ev.ptr_max // 2):
+                            # (an index only known to fit the machine word is no requirement a caller could meet: it stays open here)
                             s.status = "req"
                             s.req = (lsym[0], "min", int(idx[1] + 1 - lsym[1]))
                             s.why = "requires len(%s) >= %d" % (self.pname(lsym[0]), idx[1] + 1 - lsym[1])
@@ -902,9 +903,9 @@ def calls_predicate(T, fid, pred_re, avoid_re, memo):
     res = False
     for (bi, tgt, args, line) in a.calls:
         n = norm_name(tgt["name"])
-        if re.fullmatch(avoid_re, n):
+        if fullmatch_name(avoid_re, n):
             continue
-        if re.fullmatch(pred_re, n) or calls_predicate(T, tgt["id"], pred_re, avoid_re, memo):
+        if fullmatch_name(pred_re, n) or calls_predicate(T, tgt["id"], pred_re, avoid_re, memo):
             res = True
             break
     memo[fid] = res
@@ -918,7 +919,7 @@ def reaches(T, fid, target_re, memo):
     a = T.fa[fid]
     res = False
     for (bi, tgt, args, line) in a.calls:
-        if re.fullmatch(target_re, norm_name(tgt["name"])) or reaches(T, tgt["id"], target_re, memo):
+        if fullmatch_name(target_re, norm_name(tgt["name"])) or reaches(T, tgt["id"], target_re, memo):
             res = True
             break
     memo[fid] = res
@@ -948,10 +949,10 @@ def check_caller_established(T, facts, ent, scope_paths, cfg, prop, run):
         memo_p = {}
         for (bi, tgt, args, line) in a.calls:
             tn = norm_name(tgt["name"])
-            if re.fullmatch(target_re, tn) or reaches(T, tgt["id"], target_re, memo_r):
+            if fullmatch_name(target_re, tn) or reaches(T, tgt["id"], target_re, memo_r):
                 reach_blocks.append((bi, tgt["name"], line))
-            if re.fullmatch(pred_re, tn) or (not re.fullmatch(target_re, tn) and calls_predicate(T, tgt["id"], pred_re, target_re, memo_p)):
-                if not (re.fullmatch(target_re, tn) or reaches(T, tgt["id"], target_re, memo_r)):
+            if fullmatch_name(pred_re, tn) or (not fullmatch_name(target_re, tn) and calls_predicate(T, tgt["id"], pred_re, target_re, memo_p)):
+                if not (fullmatch_name(target_re, tn) or reaches(T, tgt["id"], target_re, memo_r)):
                     est_blocks.append(bi)
         loops = body.loops()
         ok_all = True
@@ -1011,7 +1012,7 @@ def run_totality(facts, run, prop):
                 n_explicit += 1
                 ent = None
                 for i, e in enumerate(table):
-                    if e["kind"] == s.kind and re.fullmatch(e["fn"], norm_name(a.fn["name"])) and re.fullmatch(e["disc"], s.disc):
+                    if e["kind"] == s.kind and fullmatch_name(e["fn"], norm_name(a.fn["name"])) and re.fullmatch(e["disc"], s.disc):
                         ent = e
                         used.add(i)
                         break
@@ -1168,7 +1169,7 @@ def run_totality(facts, run, prop):
                                     e["fn"], e["disc"], e["doc_fn"], e["doc_re"]), config=cfg, prop=prop))
         if e.get("class") == "caller-established":
             # applies when the asserting function is in scope
-            in_scope = any(re.fullmatch(e["fn"], norm_name(T.fa[fid].fn["name"])) for fid in paths)
+            in_scope = any(fullmatch_name(e["fn"], norm_name(T.fa[fid].fn["name"])) for fid in paths)
             if in_scope:
                 check_caller_established(T, facts, e, paths if prop != "ALL" else None, cfg, prop, run)
     run.stats = getattr(run, "stats", {})
